@@ -141,7 +141,7 @@ def cache_projection(project, layout):
         if mod is None or not hasattr(mod, 'filename'):
             continue
         ver = None
-        sc = mod.__dict__.get('scope')
+        sc = mod.__dict__.get('_scope') or mod.__dict__.get('scope')     # the cached analysis, if any
         if sc is not None:
             for n in sc.flow._names:
                 mm = re.match(r'^m[bcd]_v(\d+)$', n.name)
